@@ -8,6 +8,9 @@ ASSUME \A a, b \in {<<>>, <<1>>, <<2>>, <<1, 2>>, <<2, 1>>, <<1, 2, 1>>} : \A t 
 SmallWords == {<<>>, <<1>>, <<2>>, <<1, 1>>, <<1, 2>>, <<2, 1>>, <<1, 2, 1>>, <<2, 1, 1>>, <<1, 2, 3>>, <<3, 2, 1>>, <<1, 2, 2, 1>>, <<2, 1, 2, 1>>}
 ASSUME \A a, b \in SmallWords : \A t \in BOOLEAN : LevDP(a, b, t) = Lev(a, b, t)
 ASSUME \A a, b \in SmallWords : \A t \in BOOLEAN : \A k \in 0..Len(b) : LevTable(a, b, t)[k + 1][Len(a) + 1] = Lev(a, SubSeq(b, 1, k), t)
+ASSUME /\ WithinBudget(<<"a", "x", "b", "c">>, <<"a", "b", "c">>, 1) /\ WithinBudget(<<"a", "b", "x", "c">>, <<"a", "b", "c">>, 1)
+       /\ ~WithinBudget(<<"a", "x", "b", "x", "c">>, <<"a", "b", "c">>, 1) /\ WithinBudget(<<"b", "a", "c">>, <<"a", "b", "c">>, 2)
+       /\ ~WithinBudget(<<"b", "a", "c">>, <<"a", "b", "c">>, 1) /\ ~WithinBudget(<<"a", "c">>, <<"a", "b", "c">>, 5)
 ASSUME LexLess(<<1>>, <<1, 1>>) /\ LexLess(<<1, 3>>, <<2>>) /\ ~LexLess(<<2>>, <<2>>) /\ ~LexLess(<<2>>, <<1, 3>>)
 ASSUME LET ab == [r |-> "cat", a |-> [r |-> "lit", c |-> 1], b |-> [r |-> "lit", c |-> 2]]
            s == [r |-> "star", a |-> ab] IN
